@@ -4,9 +4,15 @@
   the function the translator produced from the CURRENT source is, for all inputs, the hand-written model function that the property
   theorems are about. A change to one of these Python functions changes the generated definition and breaks a theorem here
   statically, without needing a test input. (Split per source area so that a change in one area does not alarm unrelated properties.)
+  The proofs close with `tie_close` (Props/TieRobC.lean): reflexivity first, then normalisation of both sides and a case analysis, so
+  that a behaviour-preserving reshaping of the Python (renamed / inlined locals, early `return` vs conditional expression, negated
+  test with swapped branches, `for _ in range(k)` vs the unrolled calls, …) keeps the theorem, while a real change fails in seconds.
 -/
+import PyEcc.Props.TieRobC
 import PyEcc.Gen.ExtraSwu
 import PyEcc.Props.TieCofactor
+
+set_option linter.unusedSimpArgs false
 
 namespace PyEcc.Tie
 open PyEcc
@@ -14,35 +20,37 @@ open PyEcc
 /-- `sqrt_division_FQ(u, v)` as translated from the source is the model's `sqrtDivisionFq`. -/
 theorem sqrt_division_FQ_eq (u v : F1) : Gen.ExtraSwu.sqrt_division_FQ u v = sqrtDivisionFq u v := by
   unfold Gen.ExtraSwu.sqrt_division_FQ sqrtDivisionFq
-  with_reducible rfl
+  tie_close [ne_eq, ite_not]
 
 /-- `optimized_swu_G1(t)` as translated from the source (straight-line code, the exceptional-case `if`, the
     non-square `if` assigning two variables, the sign fix) is the model's `optimizedSwuG1`. -/
 theorem optimized_swu_G1_eq (t : F1) : Gen.ExtraSwu.optimized_swu_G1 t = optimizedSwuG1 t := by
   unfold Gen.ExtraSwu.optimized_swu_G1 optimizedSwuG1
-  with_reducible rfl
+  tie_close [ne_eq, ite_not]
 
 /-- `sqrt_division_FQ2(u, v)` as translated from the source (the `for root in POSITIVE_EIGHTH_ROOTS_OF_UNITY`
     loop as a fold over the loop-carried pair `(is_valid_root, result)`) is the model's `sqrtDivisionFq2`. -/
 theorem sqrt_division_FQ2_eq (u v : F2) : Gen.ExtraSwu.sqrt_division_FQ2 u v = sqrtDivisionFq2 u v := by
   unfold Gen.ExtraSwu.sqrt_division_FQ2 sqrtDivisionFq2
-  with_reducible rfl
+  tie_close [ne_eq, ite_not]
 
 /-- `optimized_swu_G2(t)` as translated from the source (including the `for eta in ETAS` loop and the
     "unreachable" `raise Exception`) is the model's `optimizedSwuG2`. -/
 theorem optimized_swu_G2_eq (t : F2) : Gen.ExtraSwu.optimized_swu_G2 t = optimizedSwuG2 t := by
   unfold Gen.ExtraSwu.optimized_swu_G2 optimizedSwuG2
-  simp only [bind, Except.bind, throw, throwThe, MonadExceptOf.throw, pure, Except.pure]
+  first
+  | (simp only [bind, Except.bind, throw, throwThe, MonadExceptOf.throw, pure, Except.pure]; done)
+  | tie_close [ne_eq, ite_not, not_or, not_and, Bool.not_eq_true, Bool.not_eq_true']
 
 /-- `map_to_curve_G1(u)` = `iso_map_G1(*optimized_swu_G1(u))`, as in the model. -/
 theorem map_to_curve_G1_eq (u : F1) : Gen.ExtraSwu.map_to_curve_G1 u = mapToCurveG1 u := by
   unfold Gen.ExtraSwu.map_to_curve_G1 mapToCurveG1
-  with_reducible rfl
+  tie_close [ne_eq, ite_not]
 
 /-- `map_to_curve_G2(u)` = `iso_map_G2(*optimized_swu_G2(u))` (propagating the exception), as in the model. -/
 theorem map_to_curve_G2_eq (u : F2) : Gen.ExtraSwu.map_to_curve_G2 u = mapToCurveG2 u := by
   unfold Gen.ExtraSwu.map_to_curve_G2 mapToCurveG2
-  with_reducible rfl
+  tie_close [ne_eq, ite_not]
 
 /-- `hash_to_G1(message, DST, hash_function)` as translated from the source (unpack the two field elements,
     map both to the curve, add, clear the cofactor) is the model's `hashToG1`.  The generated code wraps the
@@ -52,9 +60,12 @@ theorem hash_to_G1_eq (message DST : Bytes) (H : HashFn) :
     Gen.ExtraSwu.hash_to_G1 message DST H = hashToG1 H message DST := by
   unfold Gen.ExtraSwu.hash_to_G1 hashToG1
   generalize hashToFieldFq H blsP message 2 DST = x
+  -- (no plain `rfl` here: on a changed source it would unfold the curve arithmetic until it times out)
   cases x with
-  | error e => rfl
-  | ok l => rcases l with _ | ⟨a, _ | ⟨b, _ | ⟨c, l⟩⟩⟩ <;> rfl
+  | error e => simp only [map_error_except, error_bind_except]
+  | ok l =>
+    rcases l with _ | ⟨a, _ | ⟨b, _ | ⟨c, l⟩⟩⟩ <;>
+      simp only [map_ok_except, ok_bind_except, List.map_cons, List.map_nil] <;> tie_close [ne_eq, ite_not]
 
 /-- `hash_to_G2(message, DST, hash_function)` as translated from the source is the model's `hashToG2`
     (same remark as for `hash_to_G1_eq`). -/
@@ -62,8 +73,11 @@ theorem hash_to_G2_eq (message DST : Bytes) (H : HashFn) :
     Gen.ExtraSwu.hash_to_G2 message DST H = hashToG2 H message DST := by
   unfold Gen.ExtraSwu.hash_to_G2 hashToG2
   generalize hashToFieldFq2 H blsP message 2 DST = x
+  -- (no plain `rfl` here: on a changed source it would unfold the curve arithmetic until it times out)
   cases x with
-  | error e => rfl
-  | ok l => rcases l with _ | ⟨a, _ | ⟨b, _ | ⟨c, l⟩⟩⟩ <;> rfl
+  | error e => simp only [map_error_except, error_bind_except]
+  | ok l =>
+    rcases l with _ | ⟨a, _ | ⟨b, _ | ⟨c, l⟩⟩⟩ <;>
+      simp only [map_ok_except, ok_bind_except, List.map_cons, List.map_nil] <;> tie_close [ne_eq, ite_not]
 
 end PyEcc.Tie
